@@ -30,6 +30,19 @@ structure V3 (F : Type) where
 
 variable {F : Type}
 
+/-! ### two ways of spreading per-source values over the (source, event) pairs of a trial -/
+
+/-- `np.take(arr, src_idxs)`: the value of the source each pair names -/
+def takeSrc {α : Type} (xs : List α) (srcIdxs : List Nat) : List (Option α) := srcIdxs.map (xs[·]?)
+
+/-- `TrialDataManager.broadcast_sources_array_to_values_array` from position `start` on: consecutive
+blocks, one per source, of as many entries as the source has pairs (it only *counts* the pairs) -/
+def blockBroadcastFrom {α : Type} (start : Nat) : List α → List Nat → List α
+  | [], _ => []
+  | x :: rest, srcIdxs => List.replicate (srcIdxs.count start) x ++ blockBroadcastFrom (start + 1) rest srcIdxs
+
+def blockBroadcast {α : Type} (xs : List α) (srcIdxs : List Nat) : List α := blockBroadcastFrom 0 xs srcIdxs
+
 section alg
 variable [Add F] [Sub F] [Mul F]
 
@@ -116,6 +129,15 @@ def gaussPsfPd (sigma evtRa evtDec srcRa srcDec : F) : F :=
   let sigmaSq := sigma * sigma
   let psi := angSep srcRa srcDec evtRa evtDec
   (1 / 2) / (Transc.pi * sigmaSq) * Transc.exp (-(1 / 2) * (psi * psi / sigmaSq))
+
+/-- the values of `GaussianPSFPointLikeSourceSignalSpatialPDF.calculate_pd`: one density per
+(source index, event index) pair, source coordinates gathered with `np.take(…, src_idxs)`, event
+coordinates and `ang_err` with `np.take(…, evt_idxs)`; `none` = `IndexError`. -/
+def psfField (srcs evts : List (F × F)) (sigmas : List F) (pairs : List (Nat × Nat)) : List (Option F) :=
+  pairs.map fun p =>
+    match srcs[p.1]?, evts[p.2]?, sigmas[p.2]? with
+    | some s, some e, some sg => some (gaussPsfPd sg e.1 e.2 s.1 s.2)
+    | _, _, _ => none
 
 /-- unit vector of the direction `(ra, dec)` -/
 def unitVec (ra dec : F) : V3 F :=
